@@ -240,23 +240,12 @@ func ruleBinPairsBAI(c *Ctx, r *Rep, tier string) {
 	}
 	r.Check(why == "", rule, "internal.OverlappingBinsFor#levels", c.Pos(ofn.Pos()), "bin 0 plus, per level, "+pairsStr(tab)+"inclusive, end-1", "OverlappingBinsFor deviates from the UCSC scheme:"+why)
 
-	// ---- constants
-	r.Instance(rule, 3)
+	// ---- constants (the bin of a read without position, 4680, is BIN-UNPLACED #no-position)
+	r.Instance(rule, 2)
 	tw, _ := constant.Int64Val(pkgConst(c, "internal", "TileWidth"))
 	r.Check(tw == 1<<14, rule, "internal.TileWidth", "internal/index.go", "16 KiB = 1 << finest-level shift", fmt.Sprintf("TileWidth = %d, must be 1<<14", tw))
 	sd, _ := constant.Int64Val(pkgConst(c, "internal", "StatsDummyBin"))
 	r.Check(sd == 37450, rule, "internal.StatsDummyBin", "internal/index.go", "37450", fmt.Sprintf("StatsDummyBin = %d, specification 37450", sd))
-	// sam.Record.Bin's constant for unmapped pairs = reg2bin(-1,0) = 4680
-	bfn := c.Func("sam", "(*Record).Bin")
-	okc := false
-	allInstrs(bfn, func(ins ssa.Instruction) {
-		if ret, ok := ins.(*ssa.Return); ok {
-			if k, isK := constInt(ret.Results[0]); isK && k == 4680 {
-				okc = true
-			}
-		}
-	})
-	r.Check(okc, rule, "sam.(*Record).Bin#unmapped", c.Pos(bfn.Pos()), "4680 = reg2bin(-1, 0)", "the bin of an unplaced read pair is not 4680")
 }
 
 // csiPairs interprets fn (reg2bin / reg2bins) for one geometry and records
@@ -265,8 +254,24 @@ func csiPairs(fn *ssa.Function, minShift, depth uint64, begV, endV uint64) ([]bi
 	beg := ssa.Value(fn.Params[0])
 	var pairs []binPair
 	var shrs []*ssa.BinOp
+	// beg itself, or beg after a clamp (a φ of beg and constants)
+	isBeg := func(v ssa.Value) bool {
+		if v == beg {
+			return true
+		}
+		p, ok := v.(*ssa.Phi)
+		if !ok {
+			return false
+		}
+		for _, e := range p.Edges {
+			if _, isK := e.(*ssa.Const); !isK && e != beg {
+				return false
+			}
+		}
+		return true
+	}
 	allInstrs(fn, func(ins ssa.Instruction) {
-		if bo, ok := ins.(*ssa.BinOp); ok && bo.Op == token.SHR && bo.X == beg {
+		if bo, ok := ins.(*ssa.BinOp); ok && bo.Op == token.SHR && isBeg(bo.X) {
 			shrs = append(shrs, bo)
 		}
 	})
